@@ -179,6 +179,8 @@ def shard_join(args):
     pool_snaps = [None if isinstance(p, str) else C.snapshot(p) for p in pool]
     for si in range(idx, len(seps), 16):
         sep = C.build(seps[si])
+        sep_nchunks = len(sep.chunks)
+        pool_nchunks = [0 if isinstance(p, str) else len(p.chunks) for p in pool]
         sc = C.cells(sep)
         snap = C.snapshot(sep)
         for n in range(0, 4):
@@ -199,6 +201,12 @@ def shard_join(args):
                     continue
                 if got != want or len(r) != len(want) or r.s != "".join(c for c, _ in want):
                     acc.failure("C06:join_result", case, "got %r expected %r" % (got, want))
+                # the items and the separator are the caller's values: a join that changes one of them is reported at once (and the
+                # pool is rebuilt, so that one aliasing bug cannot snowball through the thousands of joins that follow)
+                if any(not isinstance(p, str) and len(p.chunks) != nc for p, nc in zip(pool, pool_nchunks)) or len(sep.chunks) != sep_nchunks:
+                    acc.failure("C06:operand_changed", case, "join changed the run list of an item or of the separator")
+                    pool = [v if k == "str" else C.build(v) for k, v in JOIN_POOL]
+                    sep = C.build(seps[si])
         if C.snapshot(sep) != snap:
             acc.failure("C06:operand_changed", {"f": C.show_spec(seps[si])}, "separator changed by join")
     for p, s in zip(pool, pool_snaps):
